@@ -604,6 +604,211 @@ def check_compound(ctx, value):
 
 
 # ----------------------------------------------------------------------
+# energy scans: ONE vector object, changed in place between calls
+def _container(np, kind, values):
+    return np.array(values, dtype=float) if kind == "ndarray" else list(values)
+
+
+def _assign(A, values):
+    """Overwrite the caller's vector in place (same object, same shape)."""
+    if isinstance(A, list):
+        A[:] = list(values)
+    else:
+        A[...] = values
+
+
+def check_scan_atom(ctx, value):
+    """scattering_factors / Xray.sld called repeatedly with the same vector object whose
+    contents are changed in place between the calls; every result is judged for the
+    values the vector holds at the time of the call."""
+    spec, mode, steps, kind, route = value
+    E = env()
+    np = E["np"]
+    case = {"kind": "scan-atom", "value": value}
+    tab = nff(spec[0])
+    atom = resolve(E["table"], spec)
+    base = E["table"].symbol("H" if spec[0] in DT else spec[0])
+    n = min(len(st_) for st_ in steps)
+    steps = [st_[:n] for st_ in steps]
+    es_all = [[to_energy(tab, sp) for sp in st_] for st_ in steps]
+    key = "energy" if mode == "E" else "wavelength"
+    if route == "sld" and (base.density is None or spec[2]):
+        route = "factors"
+    cls = ["scan", "scan:" + route, "scan-vector:" + kind, "atom:" + spec_class(spec), "route:" + mode,
+           "scan-steps:%d" % len(steps)]
+    ctx.case(("scan-atom", tuple(spec), mode, kind, route, tuple(tuple(e) for e in es_all)),
+             nontrivial=any(interesting(tab, e) for es in es_all[1:] for e in es),
+             sample={"atom": spec, "scan": route, key + "_steps_keV": [es[:3] for es in es_all], "vector": kind}, cls=cls)
+    K = R_E * N_A * base.density / base.mass * 1e-8 if route == "sld" else 1.0
+    # an unrelated fresh vector first, so that the outcome of the scan does not depend on what
+    # earlier cases left behind in the process (the saved case replays on its own)
+    F = _container(np, kind, [HC / 8.0 if mode == "W" else 8.0] * (n + 1))
+    lib_call(case, "scattering_factors", lambda: atom.xray.scattering_factors(**{key: F}), is_dt_ion(spec))
+    A = None
+    for k, (specs_k, es) in enumerate(zip(steps, es_all)):
+        vals = es if mode == "E" else [HC / e for e in es]
+        if A is None:
+            A = _container(np, kind, vals)
+        else:
+            _assign(A, vals)
+        if route == "sld":
+            r1, r2 = lib_call(case, "Xray.sld", lambda: atom.xray.sld(**{key: A}), is_dt_ion(spec))
+        else:
+            r1, r2 = lib_call(case, "scattering_factors", lambda: atom.xray.scattering_factors(**{key: A}), is_dt_ion(spec))
+        if not (is_vector(np, r1, n) and is_vector(np, r2, n)):
+            raise Violation("c05:scan:shape", "step %d: vector of length %d returned %r" % (k, n, getattr(r1, "shape", type(r1))), case)
+        for i, e in enumerate(es):
+            for col, got in ((1, r1[i]), (2, r2[i])):
+                acc = tab.accept(col, e, exact_row=exact_row(tab, specs_k[i], mode))
+                if acc is None:
+                    ctx.count("excluded:nonmonotonic-interval")
+                    continue
+                judge(got, acc, "c05:scan:%s:%s:step%s" % (route, "f%d" % col if route == "factors" else ("rho", "irho")[col - 1],
+                                                           "0" if k == 0 else "N"),
+                      "step %d of a scan reusing one %s (now %s=%r): %r %s[%d]" % (k, kind, key, list(vals), spec, route, i),
+                      case, tab, e, extra_tol=(1e-12 * K * acc[3] if route == "sld" else 0.0), factor=K)
+
+
+SCAN_ROUTES = ["xray_sld-string", "xray_sld-formula", "Formula.xray_sld", "index_of_refraction", "mirror_reflectivity"]
+
+
+def check_scan_compound(ctx, value):
+    """The compound calculators called repeatedly with the same vector object, changed in
+    place between the calls (an energy scan), optionally with the same compound at another
+    density in between; every result is judged against the tables for the current values."""
+    tree, density, density2, ref_idx, steps, mode, kind, routes, interleave = value
+    E = env()
+    np, pt, xsf, table, pool = E["np"], E["pt"], E["xsf"], E["table"], E["pool"]
+    case = {"kind": "scan-compound", "value": value}
+    s = fa.render(tree)
+    comp = fa.composition(pool, tree)
+    keys = sorted(comp)
+    comp_f = dict((kk, float(v)) for kk, v in comp.items())
+    specs = [a[1] for a, _ in fa.atoms_of(tree["g"])]
+    has_dt_ion = any(is_dt_ion(sp) for sp in specs)
+    tab = nff(table[keys[ref_idx % len(keys)][0]].symbol)
+    tabs = [nff(table[kk[0]].symbol) for kk in keys]
+    n = min(len(st_) for st_ in steps)
+    steps = [st_[:n] for st_ in steps]
+    es_all = [[to_energy(tab, sp) for sp in st_] for st_ in steps]
+    routes = [r for r in SCAN_ROUTES if r in routes] or ["xray_sld-formula"]
+    key = "energy" if mode == "E" else "wavelength"
+    hot = any(e < t.emin or e > t.emax or t.near_edge(e) for es in es_all[1:] for e in es for t in tabs)
+    cls = ["scan", "scan-vector:" + kind, "route:" + mode, "scan-steps:%d" % len(steps), "atoms:%d" % min(len(keys), 6)]
+    cls += ["scan:" + r for r in routes] + (["scan:interleaved-density"] if interleave else [])
+    ctx.case(("scan-compound", s, mode, kind, tuple(routes), bool(interleave), density, tuple(tuple(e) for e in es_all)),
+             nontrivial=(hot or any(kk[1] or kk[2] for kk in keys)),
+             sample={"compound": s, "density": density, "scan": routes, key + "_steps_keV": [es[:3] for es in es_all],
+                     "vector": kind}, cls=cls)
+    try:
+        f = pt.formula(s)
+        got_comp = dict((atom_key(a), float(c)) for a, c in f.atoms.items())
+    except Exception:  # noqa
+        ctx.inconclusive += 1
+        ctx.count("inconclusive:formula-rejected")
+        return
+    if set(got_comp) != set(comp_f) or any(not same(got_comp[kk], comp_f[kk], 1e-12) for kk in comp_f):
+        ctx.inconclusive += 1
+        ctx.count("inconclusive:composition-differs")
+        return
+    masses = dict((kk, key_to_atom(table, kk).mass) for kk in keys)
+    fd = pt.formula(f, density=density)
+    # an unrelated fresh vector first, so that the outcome of the scan does not depend on what
+    # earlier cases left behind in the process (the saved case replays on its own)
+    F = _container(np, kind, [HC / 8.0 if mode == "W" else 8.0] * (n + 1))
+    lib_call(case, "xray_sld-formula", lambda: xsf.xray_sld(f, density=density, **{key: F}), has_dt_ion)
+    A = None
+    for k, (specs_k, es) in enumerate(zip(steps, es_all)):
+        refs, refs2 = [], []
+        for sp, e in zip(specs_k, es):
+            row = exact_row(tab, sp, mode)
+            ex = None if row is None else (tab.symbol, row)
+            refs.append((compound_ref(comp_f, masses, density, e), compound_ref(comp_f, masses, density, e, exact=ex)))
+            refs2.append(compound_ref(comp_f, masses, density2, e, exact=ex))
+        if any(r[0] is None or r[1] is None for r in refs) or any(r is None for r in refs2):
+            ctx.count("excluded:nonmonotonic-interval")
+            return
+        lam = [HC / e for e in es]
+        vals = es if mode == "E" else lam
+        if A is None:
+            A = _container(np, kind, vals)
+        else:
+            _assign(A, vals)
+        tag = "0" if k == 0 else "N"
+        where = "step %d of a scan reusing one %s (now %s=%r): " % (k, kind, key, list(vals))
+        for r in routes:
+            if r in ("xray_sld-string", "xray_sld-formula", "Formula.xray_sld"):
+                if r == "xray_sld-string":
+                    call = lambda: xsf.xray_sld(s, density=density, **{key: A})
+                elif r == "xray_sld-formula":
+                    call = lambda: xsf.xray_sld(f, density=density, **{key: A})
+                else:
+                    call = lambda: fd.xray_sld(**{key: A})
+                rho, irho = lib_call(case, r, call, has_dt_ion)
+                if not (is_vector(np, rho, n) and is_vector(np, irho, n)):
+                    raise Violation("c05:scan:shape", "%s%s returned %r" % (where, r, getattr(rho, "shape", type(rho))), case)
+                for i in range(n):
+                    ref = refs[i][1]           # exact node on the energy= route, window otherwise
+                    judge_sld(rho[i], ref[0], "c05:scan:%s:rho:step%s" % (r, tag), "%s%s(%r, density=%r) rho[%d]" % (where, r, s, density, i), case)
+                    judge_sld(irho[i], ref[1], "c05:scan:%s:irho:step%s" % (r, tag), "%s%s(%r, density=%r) irho[%d]" % (where, r, s, density, i), case)
+            elif r == "index_of_refraction":
+                nn = lib_call(case, r, lambda: xsf.index_of_refraction(f, density=density, **{key: A}), has_dt_ion)
+                if not is_vector(np, nn, n):
+                    raise Violation("c05:scan:shape", "%s%s returned %r" % (where, r, getattr(nn, "shape", type(nn))), case)
+                for i in range(n):
+                    c = lam[i] ** 2 / (2 * math.pi) * 1e-6
+                    ref = refs[i][0]
+                    anynan = ref[0][2] or ref[1][2]
+                    z = complex(nn[i])
+                    judge_sld(1.0 - z.real, ref[0][:2] + (anynan,) + ref[0][3:], "c05:scan:refraction:real:step%s" % tag,
+                              "%s1 - Re index_of_refraction(%r, density=%r)[%d]" % (where, s, density, i), case, factor=c, floor=4 * EPS)
+                    judge_sld(-z.imag, ref[1][:2] + (anynan, False) + ref[1][4:], "c05:scan:refraction:imag:step%s" % tag,
+                              "%s-Im index_of_refraction(%r, density=%r)[%d]" % (where, s, density, i), case, factor=c, floor=1e-300)
+            else:
+                def mirror():
+                    with np.errstate(all="ignore"):
+                        return xsf.mirror_reflectivity(f, density=density, angle=2.0, roughness=3.0, **{key: A})
+                R = lib_call(case, r, mirror, has_dt_ion)
+                if not (isinstance(R, np.ndarray) and R.shape == (1, n)):
+                    raise Violation("c05:scan:shape", "%s%s returned %r" % (where, r, getattr(R, "shape", type(R))), case)
+                # reference: Fresnel reflectivity of a thick mirror from the oracle's own index of refraction
+                for i in range(n):
+                    ref = refs[i][0]
+                    if ref[0][2] or ref[1][2] or ref[0][3] or ref[1][3]:
+                        continue
+                    got = float(R[0, i])
+                    if not (0.0 <= got <= 1.0 + 1e-12):
+                        raise Violation("c05:scan:reflectivity:outside-0-1", "%smirror_reflectivity(%r)[0,%d] = %r" % (where, s, i, got), case)
+                    c = lam[i] ** 2 / (2 * math.pi) * 1e-6
+                    want = []
+                    for rr in (ref[0][0], ref[0][1]):
+                        for ii in (ref[1][0], ref[1][1]):
+                            want.append(_fresnel(complex(1 - c * rr, -c * ii), lam[i], 2.0, 3.0))
+                    lo, hi = min(want), max(want)
+                    if not (lo * (1 - 1e-6) - 1e-15 <= got <= hi * (1 + 1e-6) + 1e-15):
+                        raise Violation("c05:scan:reflectivity:step%s" % tag, "%smirror_reflectivity(%r, density=%r, angle=2, roughness=3)[0,%d] "
+                                        "= %r, the index of refraction of the current energies gives %r" % (where, s, density, i, got, 0.5 * (lo + hi)), case)
+        if interleave:
+            rho, irho = lib_call(case, "xray_sld-formula", lambda: xsf.xray_sld(f, density=density2, **{key: A}), has_dt_ion)
+            for i in range(n):
+                judge_sld(rho[i], refs2[i][0], "c05:scan:other-density:rho:step%s" % tag,
+                          "%sxray_sld(%r, density=%r) rho[%d]" % (where, s, density2, i), case)
+                judge_sld(irho[i], refs2[i][1], "c05:scan:other-density:irho:step%s" % tag,
+                          "%sxray_sld(%r, density=%r) irho[%d]" % (where, s, density2, i), case)
+
+
+def _fresnel(n, lam, angle_deg, rough):
+    """|r|^2 of a thick mirror (xdb.lbl.gov section 4.2) in plain Python complex arithmetic."""
+    import cmath
+    th = math.radians(angle_deg)
+    k = 2 * math.pi / lam
+    ki = k * math.sin(th)
+    kf = k * cmath.sqrt(n * n - math.cos(th) ** 2)
+    r = (ki - kf) / (ki + kf) * cmath.exp(-2 * ki * kf * rough ** 2)
+    return abs(r) ** 2
+
+
+# ----------------------------------------------------------------------
 # f0
 Q_FIXED = [["abs", 0.0], ["small", 9], ["small", 3], ["abs", 0.1], ["abs", 1.0], ["abs", 5.0],
            ["abs", 4 * math.pi], ["abs", 20.0], ["abs", 50.0], ["lim", -10 ** 6], ["lim", -1], ["lim", 0],
@@ -799,6 +1004,22 @@ def task_compounds(ctx, n, depth):
     ctx.search("compounds", compound_strategy(pool, depth), lambda c, v: check_compound(c, v), n)
 
 
+def task_scans(ctx, n_atom, n_compound):
+    pool = env()["pool"]
+    def steps(spec_strategy):
+        return st.integers(1, 4).flatmap(lambda m: st.lists(st.lists(spec_strategy, min_size=m, max_size=m),
+                                                            min_size=2, max_size=3))
+    sa = st.tuples(atom_strategy(pool), st.sampled_from(["E", "E", "W"]), steps(energy_spec()),
+                   st.sampled_from(["ndarray", "ndarray", "list"]), st.sampled_from(["factors", "sld"])).map(list)
+    ctx.search("scan-atom", sa, lambda c, v: check_scan_atom(c, v), n_atom)
+    sc = st.tuples(fa.compound(pool, depth=1, max_groups=2, max_atoms=3, density=False),
+                   st.floats(1e-3, 50.0), st.floats(1e-3, 50.0), st.integers(0, 50), steps(energy_spec_compound()),
+                   st.sampled_from(["E", "E", "W"]), st.sampled_from(["ndarray", "ndarray", "list"]),
+                   st.lists(st.sampled_from(SCAN_ROUTES), min_size=1, max_size=3, unique=True),
+                   st.booleans()).map(list)
+    ctx.search("scan-compound", sc, lambda c, v: check_scan_compound(c, v), n_compound)
+
+
 def task_f0(ctx, n):
     E = env()
     syms = E["f0_syms"]
@@ -821,7 +1042,8 @@ def tasks(tier):
         out += [("factors-a", task_factors, dict(n=2600)),
                 ("factors-b", task_factors, dict(n=2600)),
                 ("element-sld", task_element_sld, dict(n=2000)),
-                ("f0", task_f0, dict(n=3000))]
+                ("f0", task_f0, dict(n=3000)),
+                ("scans", task_scans, dict(n_atom=600, n_compound=300))]
         out += [("compounds-%d" % k, task_compounds, dict(n=250, depth=k % 3)) for k in range(4)]
         return out
     for k in range(4):
@@ -831,6 +1053,8 @@ def tasks(tier):
     for k in range(5):
         out.append(("compounds-%d" % k, task_compounds, dict(n=3200, depth=k % 3)))
     out.append(("f0", task_f0, dict(n=50000)))
+    out.append(("scans-0", task_scans, dict(n_atom=8000, n_compound=3000)))
+    out.append(("scans-1", task_scans, dict(n_atom=8000, n_compound=3000)))
     return out
 
 
@@ -844,6 +1068,10 @@ def replay(ctx, case):
         check_compound(ctx, case["value"])
     elif kind == "f0":
         check_f0(ctx, case["value"])
+    elif kind == "scan-atom":
+        check_scan_atom(ctx, case["value"])
+    elif kind == "scan-compound":
+        check_scan_compound(ctx, case["value"])
     elif kind == "grid":
         g, tab = grid(case["symbol"]), nff(case["symbol"])
         if len(g) != len(tab.Ek) or any(abs(a - b) > 4 * EPS * b for a, b in zip(g, tab.Ek)):
